@@ -88,3 +88,8 @@ chk("C20", "exploration", "runtime monitoring: real portfolio weights / returns 
     "For generated portfolio journals, `portfolio weights` is compared per date and commodity with the share of the A/L totals that `balance -v V --csv -s .` reports, group rows with the sum of their members, the top level with 1, the row tree with the universe file and -m mapping; `portfolio returns` must print one line per reference-calendar period, 0.0% for constant-price periods with external flows only and V_end/V_start-1 (to 0.1%) for periods without flows.",
     "Returns are judged only in the two families the statement pins down; dates with a zero portfolio total are skipped; float tolerance 2e-6 on weights.",
     "DESIGN.md §4 C20")
+
+chk("C18", "fault_enumeration", "runtime monitoring under fault injection: RLIMIT_FSIZE at every byte offset, read-only directory / unreadable file under a dropped uid, SIGKILL injected by strace at each syscall of the rewrite, plus a syscall-trace conformance monitor",
+    "For journals whose formatted (or inferred) form differs from the file, `knut format` and `knut infer --inplace` are run with the output write cut after every k bytes (thorough: every k for 25 texts, boundaries and samples for larger ones), in unwritable directories, and killed on entry to the i-th call of each syscall of the rewrite; afterwards every target must hold exactly its old or its complete new contents, rejected inputs must be bit- and mode-identical, and other files of the same invocation must be unaffected.",
+    "A file-size limit stands in for a full disk and SIGKILL for a crash (no block-device fault injection, no power loss). Leftover temp files and the mode/inode of a rewritten file are recorded, not judged.",
+    "DESIGN.md §4 C18")
